@@ -193,6 +193,8 @@ CONFIGS = {
 }
 DEPTH = {'quick': 6, 'thorough': 10}
 DEVK = {'quick': 1, 'thorough': 2}
+ESTABLISHED = (('TICK', 0), ('CONN_OK', 0), ('RX', 0, 'OPEN_OK'), ('RX', 0, 'KA'))
+FROM_EST = {'quick': 4, 'thorough': 7}
 DEV_KINDS = ('coop', 'lateclose', 'silent', 'refuse')
 HOSTILE_PHASE = None     # C18 plugs in its hostile single-message phase
 QUICK_DEV = (2, 10)      # quick tier: k deviations within the first n steps
@@ -207,6 +209,8 @@ def run(tier, seed, prop=PROP, harness=None):
     dev = []
     for cfg in CONFIGS[tier]:
         explore.bfs(h, cfg, DEPTH[tier], col, seed=seed, result=res, merge_all=(tier == 'thorough'))
+        # and from a non-initial state: everything within FROM_EST events of a freshly Established session
+        explore.bfs(h, cfg, FROM_EST[tier], col, seed=seed, result=res, merge_all=(tier == 'thorough'), start=ESTABLISHED)
         for kind in DEV_KINDS:
             kk, win = QUICK_DEV if tier == 'quick' else THOROUGH_DEV
             st = explore.deviations(h, cfg, kk, 45, col, script_kw={'kind': kind}, window=win)
@@ -222,12 +226,12 @@ def run(tier, seed, prop=PROP, harness=None):
         'traces_validated_against_impl': res.transitions + sum(d['executions'] for d in dev) + (hostile[0] if hostile else 0),
         'samples': res.samples, 'max_depth': res.max_depth, 'closed': res.closed,
         'depth_cap_hit': res.depth_cap_hit, 'distinct_observation_classes': len(res.obs_classes),
-        'merges': res.merges, 'merges_checked': res.merges_checked, 'diverged_transitions': res.diverged,
+        'merges': res.merges, 'merges_checked': res.merges_checked, 'merges_refuted_and_undone': res.refinements[:5], 'n_merges_refuted': len(res.refinements), 'diverged_transitions': res.diverged,
         'cut_transitions': res.cut, 'not_extended_states': res.not_extended,
         'configs': CONFIGS[tier], 'alphabet': list(h.messages), 'deviation_bounded': dev, 'violation_keys': summary,
         'explanation': 'reference RFC 4271 FSM (vf/spec_fsm.py) stepped in lock-step with the real objects on every '
-                       'transition; BFS depth %d single-connection regime + <= %d deviations from the script'
-                       % (DEPTH[tier], DEVK[tier]),
+                       'transition; BFS depth %d from the start and depth %d from a freshly Established session, single-connection regime + <= %d deviations from the script'
+                       % (DEPTH[tier], FROM_EST[tier], DEVK[tier]),
     }
     report.write_evidence(prop, tier, seed, 'model_checking', cov, report.ASSUMPTIONS_E1, tm.wall(), n_new)
     return 1 if n_new else 0
